@@ -1,19 +1,21 @@
 // C17 correspondence harness (a `go test -c` binary: testing/synctest needs a *testing.T).
 //
 // Streams:
-//   A  ctpolicy group computation over generated log lists (operators, states, temporal
-//      intervals around NotAfter, root sets) and certificate lifetimes around every
-//      threshold: ll.SelectByStatus(usable).Compatible(cert, root, roots) then LogsByGroup.
-//   B  submission.GetSCTs under VIRTUAL TIME (synctest bubble) with a scripted Submitter:
-//      per-log outcome SCT / error / hang, latency, context obedience, caller deadline.
-//      Recorded: the order of SubmitToLog starts and returns (this fixes the linearisation
-//      the Coq side replays through the state machine), the returned set, the verdict, the
-//      per-log request counts.
-//   C  Distributor.AddChain / AddPreChain end to end with a scripted LogClientBuilder
-//      (roots learnt through RefreshRoots, root checking on/off, pending-logs side submission).
-//   D  (only in a -race build) concurrent use: weight changes against GetSubmissionSession,
-//      RefreshRoots against concurrent AddChain, Proxy log-list refresh against AddChain.
-//   P  postInterval grid.
+//
+//	A  ctpolicy group computation over generated log lists (operators, states, temporal
+//	   intervals around NotAfter, root sets) and certificate lifetimes around every
+//	   threshold: ll.SelectByStatus(usable).Compatible(cert, root, roots) then LogsByGroup.
+//	B  submission.GetSCTs under VIRTUAL TIME (synctest bubble) with a scripted Submitter:
+//	   per-log outcome SCT / error / hang, latency, context obedience, caller deadline.
+//	   Recorded: the order of SubmitToLog starts and returns (this fixes the linearisation
+//	   the Coq side replays through the state machine), the returned set, the verdict, the
+//	   per-log request counts.
+//	C  Distributor.AddChain / AddPreChain end to end with a scripted LogClientBuilder
+//	   (roots learnt through RefreshRoots, root checking on/off, pending-logs side submission).
+//	D  (only in a -race build) concurrent use: weight changes against GetSubmissionSession,
+//	   RefreshRoots against concurrent AddChain, Proxy log-list refresh against AddChain.
+//	P  postInterval grid.
+//
 // PropOK is the property's sentence evaluated directly on the observations.
 //
 // Build: go1.26 test -c -tags verif -o build/bin/c17 ./cmd/c17
@@ -69,11 +71,11 @@ Local Open Scope Z_scope.
 // ---------------------------------------------------------------- log lists
 
 type logSpec struct {
-	ID         int          `json:"id"`
-	Status     string       `json:"status"`
+	ID         int           `json:"id"`
+	Status     string        `json:"status"`
 	Interval   *[2]time.Time `json:"interval,omitempty"`
-	RootsKnown bool         `json:"roots_known"`
-	Roots      []int        `json:"roots,omitempty"`
+	RootsKnown bool          `json:"roots_known"`
+	Roots      []int         `json:"roots,omitempty"`
 }
 
 type opSpec struct {
@@ -1154,7 +1156,8 @@ func streamDist(t *testing.T, r *mrand.Rand, w adder, n int) {
 				}
 			}
 		}
-		full := len(known) == len(clientIDs)
+		// rootDataFull is only ever computed by RefreshRoots (zero value false before that)
+		full := refresh && !dis && len(known) == len(clientIDs)
 		verdict := "Unverified"
 		var rootP *int
 		if pool[k] {
@@ -1264,7 +1267,9 @@ func streamDist(t *testing.T, r *mrand.Rand, w adder, n int) {
 		}
 		// the side submission only ever touches pending / qualified logs, each at most once
 		for id, c := range o.Counts {
-			if !mainLogs[id] && (c > 1 || (c > 0 && !loadPending)) {
+			if !mainLogs[id] && c > 0 && !loadPending {
+				ok, note = false, fmt.Sprintf("distributor non-usable-log-contacted log=%d status=%s", id, info[id].Status)
+			} else if !mainLogs[id] && c > 1 {
 				ok, note = false, fmt.Sprintf("distributor side-submission log=%d count=%d", id, c)
 			}
 		}
